@@ -130,7 +130,7 @@ const EXTERN_PREFIXES: &[&str] = &[
     "std::string::",
     "<",
 ];
-const EXTERN_MAX_DEPTH: u32 = 6;
+const EXTERN_MAX_DEPTH: u32 = 10;
 
 impl<'tcx> Cx<'tcx> {
     fn path(&self, did: DefId) -> String {
